@@ -2,6 +2,7 @@ package erange
 
 import (
 	"fmt"
+	"go/token"
 	"go/types"
 	"math"
 	"math/big"
@@ -425,22 +426,29 @@ func maxOf(v []*big.Int) *big.Int {
 	return m
 }
 
-// FieldMinPerConfig returns, per obligation class, about 90% of the number
+// FieldMinPerConfig returns, per obligation class, about 50% of the number
 // of Stage A instances measured on the unchanged tree in one configuration
 // (vacuity thresholds; a property sums them over the configurations it runs).
+// An instance is one instruction in one inlining context of one ENTRY
+// primitive (unexported helpers are only counted inlined), so the counts do
+// not depend on how the code is split into functions; they do depend on
+// whether a limb-wise statement is unrolled or written as a loop, which is
+// why the thresholds are generous: 50%, and 20% for the conversions of the
+// 32-bit back end, four fifths of which are the ten unrolled uint32(z[i]) of
+// the reduce inlined into every primitive.
 //
 // measured:      arith  sub  wide  conv  signed  post  closure  control  complete
 // purego/arm64     125   14   143    32       2    52       17        1        22
-// f32/f32pure/386 1497   21     0   162       2    46       14        1        21
+// f32/f32pure/386 1374   21     0   162       2    44       14        1        21
 // amd64 (Go part)   90   11    57    32       1    40       13        1        18
 func FieldMinPerConfig(cfgID string) map[string]int {
 	switch cfgID {
 	case "purego", "arm64":
-		return map[string]int{ClsArith: 112, ClsSub: 12, ClsWide: 128, ClsConv: 28, ClsSigned: 1, ClsPost: 46, ClsClosure: 15, ClsControl: 1, ClsComplete: 19}
+		return map[string]int{ClsArith: 62, ClsSub: 7, ClsWide: 71, ClsConv: 16, ClsSigned: 1, ClsPost: 26, ClsClosure: 8, ClsControl: 1, ClsComplete: 11}
 	case "f32", "f32pure", "386":
-		return map[string]int{ClsArith: 1347, ClsSub: 18, ClsWide: 0, ClsConv: 145, ClsSigned: 1, ClsPost: 41, ClsClosure: 12, ClsControl: 1, ClsComplete: 18}
+		return map[string]int{ClsArith: 687, ClsSub: 10, ClsWide: 0, ClsConv: 32, ClsSigned: 1, ClsPost: 22, ClsClosure: 7, ClsControl: 1, ClsComplete: 10}
 	case "amd64":
-		return map[string]int{ClsArith: 81, ClsSub: 9, ClsWide: 51, ClsConv: 28, ClsSigned: 1, ClsPost: 36, ClsClosure: 11, ClsControl: 1, ClsComplete: 16}
+		return map[string]int{ClsArith: 45, ClsSub: 5, ClsWide: 28, ClsConv: 16, ClsSigned: 1, ClsPost: 20, ClsClosure: 6, ClsControl: 1, ClsComplete: 9}
 	}
 	return map[string]int{}
 }
@@ -490,6 +498,46 @@ func CheckFieldStageA(run *report.Run, p *load.Program, rulePrefix string) []*Pr
 		run.Fatal("[%s] E-RANGE: only %d limb-level functions found in %s", p.Cfg.ID, len(entries), fieldRel)
 	}
 	ovs := primOverrides(be)
+	// the effective specification of every function: the table above, and for
+	// an unexported helper that has no Element parameter or result (raw limb
+	// arrays, words) and is called from the package, "inline only": such a
+	// helper has no documented pre/post-condition of its own and is analysed in
+	// the context of its callers, whatever way the code is split into functions
+	eff := map[*ssa.Function]primOverride{}
+	called := map[*ssa.Function]bool{}
+	for _, fn := range entries {
+		for _, b := range fn.Blocks {
+			for _, in := range b.Instrs {
+				if c, ok := in.(ssa.CallInstruction); ok {
+					if callee := c.Common().StaticCallee(); callee != nil && callee != fn {
+						called[callee] = true
+					}
+				}
+			}
+		}
+	}
+	isElem := func(t types.Type) bool {
+		if pt, ok := t.Underlying().(*types.Pointer); ok {
+			t = pt.Elem()
+		}
+		return types.Identical(t, be.Elem)
+	}
+	for _, fn := range entries {
+		ov, listed := ovs[fn.Name()]
+		if !listed && fn.Signature.Recv() == nil && !token.IsExported(fn.Name()) && called[fn] {
+			helper := true
+			for i := 0; i < fn.Signature.Params().Len(); i++ {
+				helper = helper && !isElem(fn.Signature.Params().At(i).Type())
+			}
+			for i := 0; i < fn.Signature.Results().Len(); i++ {
+				helper = helper && !isElem(fn.Signature.Results().At(i).Type())
+			}
+			if helper {
+				ov.inlineOnly = "unexported helper without an Element parameter or result: no pre/post-condition of its own, analysed inlined at every call site with the caller's intervals"
+			}
+		}
+		eff[fn] = ov
+	}
 	var rows []*PrimRow
 	inlineOnlySeen := map[string]int{}
 	totalIdioms := map[string]int{}
@@ -500,7 +548,7 @@ func CheckFieldStageA(run *report.Run, p *load.Program, rulePrefix string) []*Pr
 		run.NotDecided = appendUnique(run.NotDecided, fmt.Sprintf("[%s] %s is assembly (no Go body): no range model; its Go callers are not given a post-condition", p.Cfg.ID, load.FuncName(fn)))
 	}
 	for _, fn := range entries {
-		ov := ovs[fn.Name()]
+		ov := eff[fn]
 		row := &PrimRow{Config: p.Cfg.ID, Primitive: load.FuncName(fn), Kind: ov.kind.String(), Note: ov.note, kind: ov.kind, fn: fn}
 		if ov.inlineOnly != "" {
 			row.Kind, row.Pre, row.Post, row.Note = "helper", "(inline only)", "-", ov.inlineOnly
@@ -603,7 +651,7 @@ func CheckFieldStageA(run *report.Run, p *load.Program, rulePrefix string) []*Pr
 
 	// helpers that are analysed inline only must actually have been inlined
 	for _, fn := range entries {
-		if ov := ovs[fn.Name()]; ov.inlineOnly != "" {
+		if ov := eff[fn]; ov.inlineOnly != "" {
 			n := inlineOnlySeen[load.FuncName(fn)]
 			rules.Rule(ClsComplete).Check(n > 0, p.Pos(fn.Pos()), load.FuncName(fn),
 				fmt.Sprintf("%s is declared inline-only but no analysed primitive inlines it", load.FuncName(fn)))
